@@ -612,10 +612,23 @@ func isNullValue(fd protoreflect.FieldDescriptor) bool {
 
 type params []param
 
+// ownField returns the message's own descriptor for the field fd. Routes are
+// shared by all backends of a method, each backend may have loaded its own copy
+// of the descriptors.
+func ownField(m protoreflect.Message, fd protoreflect.FieldDescriptor) protoreflect.FieldDescriptor {
+	if md := m.Descriptor(); fd.Parent() != md {
+		if own := md.Fields().ByNumber(fd.Number()); own != nil {
+			return own
+		}
+	}
+	return fd
+}
+
 func (ps params) set(m proto.Message) error {
 	for _, p := range ps {
 		cur := m.ProtoReflect()
 		for i, fd := range p.fds {
+			fd = ownField(cur, fd)
 			if len(p.fds)-1 == i {
 				switch {
 				case fd.IsList():
